@@ -84,7 +84,7 @@ def attrValB (asn4 : Bool) (code : Nat) : AttrVal → Bool
   | .originatorId ip => code == 9 && u32B ip
   | .clusterList ips => code == 10 && ips.all u32B
   | .largeCommunity xs => code == 32 && xs.all fun t => u32B t.1 && u32B t.2.1 && u32B t.2.2
-  | .raw _ => false
+  | .raw _ => !([1, 2, 3, 4, 5, 6, 7, 8, 9, 10, 17, 18, 32, 14, 15, 16, 22, 29, 40] : List Nat).contains code
   | .unmodelled _ => false
 
 def refPfxB (addpath : Bool) (p : RefPfx) : Bool :=
